@@ -59,9 +59,9 @@ type Node struct {
 	// Private: block of a branch that only Byzantine validators build and that is never shown
 	// to an honest validator
 	Private bool
-	Set      *ParamSet // parameters set by this block (valid from the next height), if any
-	st       *drv.Node
-	ref      *lip58.Model
+	Set     *ParamSet // parameters set by this block (valid from the next height), if any
+	st      *drv.Node
+	ref     *lip58.Model
 }
 
 // ParamSet is a validator set with thresholds.
@@ -160,8 +160,8 @@ type sim struct {
 	// only moves the certificate threshold; finality is reasoned about exactly as without it, so
 	// it may sit above fork points (every branch reaching chgAt installs it)
 	chgCertOnly bool
-	chg   *ParamSet
-	limit int
+	chg         *ParamSet
+	limit       int
 	// certP: probability that a block carries an aggregate commit (height in (certified,
 	// precommitted] of its parent state, as verifyAggregateCommit demands) when one is possible
 	certP float64
